@@ -86,13 +86,17 @@ def _job(job):
     try:
         rc, out, err = cbuild.run(_exe, args, timeout=tmo, env=_SAN_ENV)
     except subprocess.TimeoutExpired:
-        return {"name": name, "args": args, "rc": None, "js": None, "v": [], "crash": None, "err": "timeout after %ds" % tmo}
-    js, v, crash = None, [], None
+        return {"name": name, "args": args, "rc": None, "js": None, "v": [], "hd": [], "crash": None, "err": "timeout after %ds" % tmo}
+    js, v, hd, crash = None, [], [], None
     for line in out.decode(errors="replace").splitlines():
         if line.startswith("V "):
             parts = line[2:].split(" | ")
             if len(parts) == 3:
                 v.append(tuple(parts))
+        elif line.startswith("HD "):
+            parts = line[3:].split(" | ")
+            if len(parts) == 4:
+                hd.append(tuple(parts))
         elif line.startswith("CRASH | "):
             crash = line[8:].strip()
         elif line.startswith("{"):
@@ -100,27 +104,64 @@ def _job(job):
                 js = json.loads(line)
             except ValueError:
                 pass
-    return {"name": name, "args": args, "rc": rc, "js": js, "v": v, "crash": crash, "err": _san_summary(err.decode(errors="replace"))}
+    return {"name": name, "args": args, "rc": rc, "js": js, "v": v, "hd": hd, "crash": crash, "err": _san_summary(err.decode(errors="replace"))}
 
 
 def _case_for(token, r):
     return {"token": token, "mode": r["args"][0], "args": r["args"]}
 
 
-def _report(ctx, r):
-    """Violations of one driver run -> ctx.  Returns True if the run completed."""
+def _k_of(args):
+    k = [a[2:] for a in map(str, args) if a.startswith("K=")]
+    return [int(k[0])] if k else []
+
+
+def _died(r):
+    return r["rc"] is not None and (r["js"] is None or r["rc"] not in (0, 1))
+
+
+HD_TEXT = ("the result of a trace depends on what ran before it in the same process: the code under test keeps state outside "
+           "l1s.tdma_sched (e.g. a file-scope static) that survives from one frame / call sequence to the next")
+
+
+def _report(ctx, r, confirmed=None):
+    """Self-contained violations of one driver run -> ctx (every V line carries a trace that the driver has already
+    re-run alone in a pristine process).  Returns True if the run completed."""
     for key, msg, token in r["v"]:
         ctx.violation(key, _case_for(token, r), "%s [%s] case: %s" % (msg, r["name"], token))
+        if confirmed is not None:
+            confirmed.add(key)
     if r["rc"] is None:
         ctx.violation("C08:hang:%s" % r["args"][0], _case_for("-", r), "driver did not finish: %s" % r["err"])
         return False
     if r["js"] is not None and "harness_error" in r["js"]:
         raise HarnessError("drv_c08 %s: %s" % (r["name"], r["js"]["harness_error"]))
-    if r["js"] is None or r["rc"] not in (0, 1):
-        ctx.violation("C08:crash:%s" % r["args"][0], _case_for(r["crash"] or "-", r),
-                      "driver died (rc=%s) in %s at case %s: %s" % (r["rc"], r["name"], r["crash"], r["err"]))
-        return False
-    return True
+    return not _died(r)
+
+
+def _report_crash(ctx, r):
+    """The driver died (sanitizer report, abort).  The case it was executing is re-run alone in a fresh process: if it
+    dies there too it is an ordinary, replayable violation; otherwise the death depends on the history of the process."""
+    mode, tok = r["args"][0], r["crash"] or "-"
+    if tok != "-":
+        rr = _job(("crash-recheck", ["case", tok] + _k_of(r["args"]), 600))
+        if _died(rr):
+            ctx.violation("C08:crash:%s" % mode, _case_for(tok, r),
+                          "driver died (rc=%s) in %s at case %s: %s" % (r["rc"], r["name"], tok, r["err"]))
+            return
+    ctx.violation("C08:history-dependent:crash:%s" % mode, {"hd_key": "crash", "vkey": "C08:history-dependent:crash:%s" % mode,
+                                                             "token": "-", "mode": mode, "args": r["args"]},
+                  "driver died (rc=%s) in %s at case %s (%s); that case alone in a fresh process does not die - %s"
+                  % (r["rc"], r["name"], tok, r["err"], HD_TEXT))
+
+
+def _report_hd(ctx, r, confirmed):
+    for key, msg, example, note in r["hd"]:
+        if key in confirmed:
+            continue                 # a self-contained trace for this key exists (possibly from another run)
+        vkey = "C08:history-dependent:%s" % (key[4:] if key.startswith("C08:") else key)
+        ctx.violation(vkey, {"hd_key": key, "vkey": vkey, "token": "-", "mode": r["args"][0], "args": r["args"]},
+                      "%s (e.g. after %s) - seen inside the exploration [%s], but %s; %s" % (msg, example, r["name"], note, HD_TEXT))
 
 
 def run(ctx):
@@ -149,13 +190,18 @@ def run(ctx):
 
         c = ctx.cov
         c.update({"states": 0, "transitions": 0, "order_cases": 0, "capacity_cases": 0, "refusals_checked": 0, "setsweep_cases": 0,
-                  "set_calls_nonfirst_frame_on_slot24": 0, "set_calls_wrapping_ring": 0,
+                  "set_calls_nonfirst_frame_on_slot24": 0, "set_calls_wrapping_ring": 0, "history_dependent_keys": 0, "verify_requests": 0,
+                  "sampled_traces_rerun_alone": 0, "sampled_traces_differing": 0,
                   "execute_calls": 0, "items_due_at_execute": 0, "schedule_calls": 0, "set_calls": 0, "resets": 0,
                   "bad_transitions": 0})
         bfs, complete, depth = {}, True, 0
         hist = [0] * 9
-        for r in results:
-            ok = _report(ctx, r)
+        confirmed = set()
+        oks = [_report(ctx, r, confirmed) for r in results]
+        for r, ok in zip(results, oks):
+            if _died(r):
+                _report_crash(ctx, r)
+            _report_hd(ctx, r, confirmed)
             complete = complete and ok
             js = r["js"] or {}
             for i, x in enumerate(js.get("executed_per_call_hist", [])):
@@ -163,18 +209,19 @@ def run(ctx):
             if r["args"][0] == "bfs" and ok:
                 bfs[r["name"]] = {k: js[k] for k in ("states", "transitions", "depth", "frontier_exhausted", "K", "alphabet",
                                                       "max_outstanding", "ring_positions", "min_states_per_position", "item_types",
-                                                      "set_calls", "set_calls_nonfirst_frame_on_slot24", "set_calls_wrapping_ring")}
+                                                      "set_calls", "set_calls_nonfirst_frame_on_slot24", "set_calls_wrapping_ring",
+                                                      "sampled_traces_rerun_alone", "sampled_traces_differing")}
                 bfs[r["name"]]["config"] = " ".join(map(str, r["args"][1:]))
                 complete = complete and js["frontier_exhausted"] and js["ring_positions"] == 25
                 depth = max(depth, js["depth"])
                 for k in ("states", "transitions", "execute_calls", "items_due_at_execute", "schedule_calls", "set_calls",
-                          "resets", "bad_transitions"):
+                          "resets", "bad_transitions", "sampled_traces_rerun_alone", "sampled_traces_differing"):
                     c[k] += js[k]
             elif ok:
                 for k in ("order_cases", "capacity_cases", "refusals_checked", "setsweep_cases"):
                     c[k] += js.get(k, 0)
             if ok:
-                for k in ("set_calls_nonfirst_frame_on_slot24", "set_calls_wrapping_ring"):
+                for k in ("set_calls_nonfirst_frame_on_slot24", "set_calls_wrapping_ring", "history_dependent_keys", "verify_requests"):
                     c[k] += js.get(k, 0)
         c["bfs_runs"] = bfs
         c["depth_reached"] = depth
@@ -215,21 +262,28 @@ def replay(ctx, case):
     try:
         _exe = _build(b)
         tok = case.get("token", "-")
-        if tok.startswith("capacity:"):
-            pos = int(tok.split(":")[1])
-            args = ["capacity", pos, pos + 1]
-        elif tok.startswith("order:"):
-            _, n, idx = tok.split(":")
-            args = ["order", int(n), int(idx), int(idx) + 1]
-        elif tok != "-":
-            # an event sequence (BFS trace, set sweep case); the search's bound K decides when the structure
-            # counts as holding more items than were ever scheduled
-            k = [a[2:] for a in map(str, case.get("args", [])) if a.startswith("K=")]
-            args = ["replay", tok] + ([int(k[0])] if k else [])
+        if "hd_key" in case:
+            # history-dependent result: only the whole (deterministic) run shows it again
+            r = _job(("replay", case["args"], 2400))
+            r["args"] = case["args"]
+            if case["hd_key"] == "crash":
+                if _died(r):
+                    ctx.violation(case["vkey"], case, "driver died again (rc=%s) at case %s: %s; %s" % (r["rc"], r["crash"], r["err"], HD_TEXT))
+            else:
+                for key, msg, example, note in r["hd"]:
+                    if key == case["hd_key"]:
+                        ctx.violation(case["vkey"], case, "%s (e.g. after %s) - %s; %s" % (msg, example, note, HD_TEXT))
+            return
+        if tok == "-":
+            args = case["args"]          # hang without a located case: re-run the whole job
         else:
-            args = case["args"]          # crash/hang without a located case: re-run the whole job
+            # one case alone in a fresh process; the search's bound K decides when the structure counts as holding
+            # more items than were ever scheduled
+            args = ["case", tok] + _k_of(case.get("args", []))
         r = _job(("replay", args, 1500))
         r["args"] = case.get("args", args)
         _report(ctx, r)
+        if _died(r):
+            ctx.violation("C08:crash:%s" % r["args"][0], case, "driver died (rc=%s) at case %s: %s" % (r["rc"], r["crash"], r["err"]))
     finally:
         cbuild.cleanup(b)
